@@ -428,4 +428,40 @@ example : (match sideNamed.toBio none false with
     | .ok [b] => (match Sub.fromBio b with | .ok s => s.tool == sideNamed.tool && s.side == sideNamed.side && s.label == "x" | _ => false)
     | _ => false) = true := by decide +kernel
 
+/-! ### the taxon of the run (`Record.from_biopython(seq_record, taxon)`) -/
+
+/-- whether a written record can be read back, and what is read, does not depend on the taxon — bacterial or not —
+    as long as no `misc_feature` needs the NCBI clean-up that only bacterial runs apply: in particular the refusal
+    of an origin-spanning exon looks at the record's own topology (`linearSpan`), never at the taxon -/
+theorem reading_ignores_taxon (bacteria : Bool) (len : Int) (circular : Bool) (bios : List Bio)
+    (h : ∀ b ∈ bios, b.type = "misc_feature" → prefilter b = b) :
+    readRecordT bacteria len circular bios = readRecord len circular bios :=
+  readRecordT_eq bacteria len circular bios fun b hb => by
+    by_cases hm : b.type = "misc_feature"
+    · exact h b hb hm
+    · exact prefilter_id b hm
+
+/-- the numbering theorem for a run of any taxon: a record in `Rec.Scope` — circular ones with origin-spanning
+    protoclusters, subregions, candidate clusters and regions included — is read back with the same areas, numbers
+    and cross references whether the run is bacterial or fungal.  Partial: `Rec.Scope`, and no written
+    `misc_feature` with redundant exons across the origin (those are rewritten by bacterial runs only). -/
+theorem numbering_roundtrip_any_taxon_partial (bacteria t : Bool) (r : Rec) (H : r.Scope) (bios : List Bio) (r' : Rec)
+    (hw : writeRecord r = .ok bios) (hclean : ∀ b ∈ bios, b.type = "misc_feature" → prefilter b = b)
+    (hr : readRecordT bacteria r.len r.circular bios = .ok r') :
+    r'.subs.map (Sub.view t) = r.subs.map (Sub.view t) ∧ r'.protos.map (Proto.view t) = r.protos.map (Proto.view t) ∧
+    r'.cands.map (Cand.view t r') = r.cands.map (Cand.view t r) ∧ r'.regs.map (Reg.view t) = r.regs.map (Reg.view t) := by
+  rw [reading_ignores_taxon bacteria _ _ bios hclean] at hr
+  exact numbering_roundtrip_partial t r H bios r' hw hr
+
+/-- a circular record of 300 bases with a protocluster across the origin -/
+def rSpan : Rec :=
+  { len := 300, circular := true,
+    protos := [mkArea (.compound [⟨240, 300, .fwd⟩, ⟨0, 60, .fwd⟩]) (.compound [⟨270, 300, .fwd⟩, ⟨0, 30, .fwd⟩]) "terpene" 30] }
+/-- non-vacuity: a non-bacterial run reads it back (the same protocluster, core across the origin), and the same
+    features in a record declared linear are refused by both kinds of run -/
+example : ((do let bios ← writeRecord rSpan; let r' ← readRecordT false 300 true bios; pure (r'.protos.map (·.core)) : E (List Loc)).toOption
+      = some (rSpan.protos.map (·.core))) ∧
+    ((do let bios ← writeRecord rSpan; readRecordT false 300 false bios : E Rec).toOption = none) ∧
+    ((do let bios ← writeRecord rSpan; readRecordT true 300 false bios : E Rec).toOption = none) := by decide +kernel
+
 end ASV.C10
